@@ -1488,6 +1488,18 @@ class Interp:
             return {"starts_with": b.startswith(xb), "ends_with": b.endswith(xb), "contains": xb in b}[m]
         if gen in ("alloc::string::String::new", "alloc::string::String::with_capacity"):
             return ""
+        if gen in ("core::slice::raw::from_ref", "core::slice::from_ref", "core::array::from_ref"):
+            v = self.ev(args[0], env, depth)
+            return [v.get() if isinstance(v, Ref) else v]
+        if gen in ("core::str::from_utf8", "core::str::converts::from_utf8", "alloc::string::String::from_utf8", "alloc::string::String::from_utf8_lossy"):
+            v = self.ev(args[0], env, depth)
+            v = v.get() if isinstance(v, Ref) else v
+            if isinstance(v, (list, tuple)) and all(isinstance(x, int) and not isinstance(x, bool) and 0 <= x < 256 for x in v):
+                try:
+                    return Enum("Result", "Ok", {"0": bytes(v).decode("utf-8")}) if not gen.endswith("lossy") else bytes(v).decode("utf-8", "replace")
+                except UnicodeDecodeError:
+                    return Enum("Result", "Err", {"0": Opaque("Utf8Error")}) if not gen.endswith("lossy") else bytes(v).decode("utf-8", "replace")
+            raise Unknown("from_utf8 of %r" % (v,))
         if gen in ("alloc::string::String::is_empty", "alloc::string::String::truncate", "alloc::string::String::clear", "alloc::string::String::pop",
                    "core::str::<impl str>::trim_end_matches", "core::str::<impl str>::trim_start_matches", "core::str::<impl str>::trim_matches"):
             cur = self.ev(args[0], env, depth)
